@@ -23,8 +23,8 @@ def handle (α : Type) [Arith α] [Wire α] : List Sexp → Sexp
   | [.atom "standardize", tol, lm] =>
     if !(tolOk tol) then app "err" [.atom "tolerance-mismatch"] else
     match (decNumS tol : Option α), (LinModel.dec lm : Option (LinModel α)) with
-    | some tol, some lm =>
-      match Standardize.standardize tol lm with
+    | some _, some lm =>
+      match Standardize.standardize lm with
       | .ok sm => app "ok" [sm.enc]
       | .error e => app "err" [.atom e.name]
     | _, _ => app "err" [.atom "decode"]
